@@ -121,6 +121,10 @@ Nl1(h, rs)   == /\ InBlock(h)
                    ELSE rs \in {"ok", "ValueError"} /\ Edit(h, "nl", H[h], rs)
 Cmt1(h)      == InBlock(h) /\ Edit(h, "cmt", [H[h] EXCEPT !.tail = "cmt"], "ok")
 Reformat1(h) == InBlock(h) /\ Edit(h, "reformat", [H[h] EXCEPT !.dirty = TRUE], "ok")
+\* no_reformatting_when_finished / value_formatter(f) / value_formatter(f, force_reformat=True): only the last
+\* one marks the list as changed
+NoReformat1(h) == InBlock(h) /\ Edit(h, "noreformat", H[h], "ok")
+VFmt1(h, force) == InBlock(h) /\ Edit(h, IF force THEN "vfmtf" ELSE "vfmt", [H[h] EXCEPT !.dirty = @ \/ force], "ok")
 
 MayRefuse(h) == H[h].dirty /\ (H[h].el = <<>> \/ H[h].tail = "cmt")
 \* leaving the with-block
@@ -136,6 +140,11 @@ Leave1(h, rs) ==
                       ELSE IF H[x].live /\ H[x].d = d /\ H[x].f = f THEN [H[x] EXCEPT !.stale = TRUE] ELSE H[x]]
       ELSE /\ H' = [H EXCEPT ![h].inb = FALSE] /\ UNCHANGED <<doc, unk>>
    /\ res' = rs /\ got' = <<>> /\ UNCHANGED held /\ Note(h, "leave")
+\* the with-block is left by an exception (or __exit__ is called with one): nothing is written, the object keeps
+\* its edits and stays dirty
+Abort1(h) == /\ InBlock(h)
+             /\ H' = [H EXCEPT ![h].inb = FALSE] /\ res' = "ok" /\ got' = <<>>
+             /\ UNCHANGED <<doc, unk, held>> /\ Note(h, "abort")
 \* the same object entered again
 Reenter1(h) == /\ H[h].live /\ ~H[h].inb
                /\ H' = [H EXCEPT ![h].inb = TRUE] /\ res' = "ok" /\ got' = <<>>
@@ -185,6 +194,7 @@ Next ==
                   \/ HeldSet1(h, r, <<NEWW>>) /\ Log(h, 0, "", "", <<>>, <<NEWW>>, r)
                   \/ HeldRemove1(h, r) /\ Log(h, 0, "", "", <<>>, <<>>, r)
             \/ (Extras /\ (Nl1(h, IF H[h].tail = "none" THEN "ok" ELSE "ValueError") \/ Cmt1(h) \/ Reformat1(h)) /\ Log(h, 0, "", "", <<>>, <<>>, 0))
+            \/ (Extras /\ (NoReformat1(h) \/ VFmt1(h, TRUE) \/ VFmt1(h, FALSE) \/ Abort1(h)) /\ Log(h, 0, "", "", <<>>, <<>>, 0))
             \/ Leave1(h, IF MayRefuse(h) THEN "ValueError" ELSE "ok") /\ Log(h, 0, "", "", <<>>, <<>>, 0)
             \/ Reenter1(h) /\ Log(h, 0, "", "", <<>>, <<>>, 0)
             \/ Drop1(h) /\ Log(h, 0, "", "", <<>>, <<>>, 0)
